@@ -209,6 +209,7 @@ func init() {
 	}
 	runners["prog"] = func(a []string) string { return runProg(strings.Join(a, "")) }
 	runners["api"] = func(a []string) string { return runProg(strings.Join(a, "")) }
+	runners["apix"] = runners["api"]
 }
 
 // ---- history / round-trip / ownership ops -------------------------------------------------------
